@@ -1,5 +1,5 @@
 // fakezm stands in for the lrzsz helpers (rz / sz) in the C19 check. Behaviour comes from the environment:
-//   FAKEZM_MODE = exit_now | silent | talk | late:<ms>      FAKEZM_EXIT = exit status      FAKEZM_LOG = log file
+//   FAKEZM_MODE = exit_now | silent | talk | late:<ms> | linger | mute_linger      FAKEZM_EXIT = exit status      FAKEZM_LOG = log file
 package main
 
 import (
@@ -37,6 +37,9 @@ func main() {
 	if mode == "linger" { // talks and finishes like a real helper, but does not leave by itself afterwards
 		linger = true
 		mode = "talk"
+	}
+	if mode == "mute_linger" { // never says a word and does not leave by itself, whatever the other side says (short of a cancel)
+		linger = true
 	}
 	if mode == "talk" {
 		os.Stdout.Write([]byte("HELLO-FROM-HELPER\r\n"))
